@@ -11,6 +11,15 @@ def genTables : CastTables :=
   { casters := Gen.casters, dispatchTo := Gen.dispatchTo, dispatchToDefault := Gen.dispatchToDefault,
     sentinels := Gen.sentinels, binFns := Gen.binFns, timeStringFormat := Gen.timeStringFormat }
 
+/-! The unfolding lemmas of the generated tables are created here, once, so that two proof modules
+    unfolding them independently can be imported together. -/
+example : Gen.casters = Gen.casters := by unfold Gen.casters; rfl
+example : Gen.dispatchTo = Gen.dispatchTo := by unfold Gen.dispatchTo; rfl
+example : Gen.dispatchToDefault = Gen.dispatchToDefault := by unfold Gen.dispatchToDefault; rfl
+example : Gen.sentinels = Gen.sentinels := by unfold Gen.sentinels; rfl
+example : Gen.binFns = Gen.binFns := by unfold Gen.binFns; rfl
+example : genTables = genTables := by unfold genTables; rfl
+
 def casterOfInt : IntTy → String
   | .int => "ToInt" | .i64 => "ToInt64" | .i32 => "ToInt32" | .i16 => "ToInt16" | .i8 => "ToInt8"
   | .uint => "ToUint" | .u64 => "ToUint64" | .u32 => "ToUint32" | .u16 => "ToUint16" | .u8 => "ToUint8"
